@@ -192,7 +192,7 @@ func (r *chainRun) doBadBlock(st *CStep, n *Node, v *nodeView, failed *bool, fai
 	if !bytes.Equal(n.L.GetMeta().TipBlockid, n.S.GetLatestBlockid()) {
 		return nil
 	}
-	kind := abs(st.A) % 6
+	kind := abs(st.A) % 7
 	o := MineOpts{MaxTx: -1}
 	what := ""
 	viaProc := st.Via%2 == 0
@@ -249,11 +249,84 @@ func (r *chainRun) doBadBlock(st *CStep, n *Node, v *nodeView, failed *bool, fai
 			return nil
 		}
 		o.Txs = []*lpb.Transaction{tx}
+	case 6:
+		// two contract transactions pre-executed against the same state: the first overwrites or deletes
+		// a key, the second declares the version of that key from BEFORE the first (it read or
+		// overwrites it). Alone each is valid; together the second's declared read is not current.
+		what = "two transactions consuming one key version"
+		key := kvKeys[abs(st.B)%len(kvKeys)]
+		first := []KOp{{Op: "put", K: key, V: "w"}}
+		if abs(st.B)/4%2 == 1 {
+			first = []KOp{{Op: "del", K: key}}
+		}
+		second := []KOp{{Op: "get", K: key}, {Op: "put", K: kvKeys[(abs(st.B)+1)%len(kvKeys)], V: "x"}}
+		if abs(st.B)/8%2 == 1 {
+			second = []KOp{{Op: "put", K: key, V: "y"}}
+		}
+		var txs []*lpb.Transaction
+		for i, prog := range [][]KOp{first, second} {
+			from := Accts[i]
+			resp, err := n.PreExecProg(from, prog, nil)
+			if err != nil {
+				if i == 0 && first[0].Op == "del" { // nothing to delete: overwrite instead
+					first = []KOp{{Op: "put", K: key, V: "w"}}
+					if resp, err = n.PreExecProg(from, first, nil); err != nil {
+						return nil
+					}
+				} else {
+					return nil
+				}
+			}
+			sp := &TxSpec{From: from, Version: 3, Invoke: resp}
+			need, got := big.NewInt(resp.GasUsed), new(big.Int)
+			us, _ := n.ListUtxos(from.Addr)
+			h := n.L.GetMeta().TrunkHeight
+			for _, u := range us {
+				if u.Frozen == -1 || u.Frozen > h {
+					continue
+				}
+				if got.Cmp(need) >= 0 && len(sp.Inputs) > 0 {
+					break
+				}
+				sp.Inputs = append(sp.Inputs, u)
+				got.Add(got, u.Amount)
+			}
+			if got.Cmp(need) < 0 || len(sp.Inputs) == 0 {
+				return nil
+			}
+			tx, err := BuildTx(sp)
+			if err != nil {
+				return nil
+			}
+			txs = append(txs, tx)
+		}
+		// the block is only defective if the two really declare the same version of the key and the first
+		// writes it (an injected read error during pre-execution may have dropped a read)
+		conflict := false
+		for _, ia := range txs[0].TxInputsExt {
+			for _, ib := range txs[1].TxInputsExt {
+				if ia.Bucket == ib.Bucket && string(ia.Key) == key && string(ib.Key) == key && bytes.Equal(ia.RefTxid, ib.RefTxid) && ia.RefOffset == ib.RefOffset {
+					for _, oa := range txs[0].TxOutputsExt {
+						if oa.Bucket == ia.Bucket && string(oa.Key) == key {
+							conflict = true
+						}
+					}
+				}
+			}
+		}
+		if !conflict {
+			return nil
+		}
+		o.Txs = txs
+		r.rc.St.Probes["badblock-key-version-conflict-"+first[0].Op]++
 	}
 	blk, err := n.PackBlock(o)
 	if err != nil {
 		return nil
 	}
+	// the defective block is an adversary's: it holds its own copies of the transactions, never the
+	// packing node's pool objects (Ledger.ConfirmBlock stamps the block id into the objects it is given)
+	blk = CloneBlock(blk)
 	if kind == 4 && len(blk.Sign) > 4 {
 		blk.Sign[len(blk.Sign)/2] ^= 0x55
 	}
@@ -283,7 +356,7 @@ func (r *chainRun) doBadBlock(st *CStep, n *Node, v *nodeView, failed *bool, fai
 	}
 	*failed = perr != nil
 	stored := tn.L.ExistBlock(pristine.Blockid)
-	r.logf("bad block (%s) %s -> %s via proc=%v: err=%v stored=%v", what, hx(pristine.Blockid), tn.Name, viaProc, perr != nil, stored)
+	r.logf("bad block (%s) %s -> %s via proc=%v: err=%v (%v) stored=%v state at %s txs %s", what, hx(pristine.Blockid), tn.Name, viaProc, perr != nil, perr, stored, hx(tn.S.GetLatestBlockid()), descTxids(pristine.Transactions))
 	r.rc.St.Probes["badblock-"+what]++
 	if stored {
 		// the ledger does not validate bodies; the block is part of the stored tree from now on
